@@ -96,7 +96,8 @@ PROPS["C08"]["functions"] += [WEB + "StoreBasedCollection.get_ctag", WEB + "Stor
 _RO = [G + "GitStore.get_displayname", G + "GitStore.get_description", G + "GitStore.get_comment", G + "GitStore.get_color",
        G + "GitStore.get_source_url", WEB + "StoreBasedCollection.get_displayname", WEB + "StoreBasedCollection.get_comment"]
 PROPS["C08"]["functions"] += _RO
-PROPS["C01"]["functions"] += [W + "PostMethod.handle"]
+PROPS["C01"]["functions"] += [W + "PostMethod.handle", W + "_send_simple_dav_error", W + "nonfatal_bad_request",
+                              "xandikos.store.open_by_extension"]
 PROPS["C02"]["functions"] += [W + "_do_get"]
 PROPS["C03"]["functions"] += [W + "_do_get"]
 PROPS["C12"] = {
@@ -151,6 +152,7 @@ PROPS["C14"]["bounded_always"] = {"xandikos.icalendar.ICalendarFile.describe_del
              "multi-valued properties in unsorted order; after every acknowledged write the stored bytes must equal normalized() of a "
              "freshly parsed copy of the upload"}}
 PROPS["C06"]["functions"] += ["xandikos.icalendar.ICalendarFile.get_uid"]
+PROPS["C14"]["functions"] += ["xandikos.store.open_by_extension"]
 IC = "xandikos.icalendar."
 FILTERS = "filters.py"
 _FILTER_FNS = [IC + "ComponentTimeRangeMatcher.match", IC + "PropertyTimeRangeMatcher.match", IC + "TextMatcher.match",
